@@ -277,6 +277,25 @@ def run_one(ch, cfg):
         ref = REF.validate(rc, bytes.fromhex(root_hex))
     desc = "class %s/%s element %s: real %s%s, reference %s" % (
         cls, kind, elem_name, _short(real), (" (" + real_err + ")") if real_err else "", _short(ref))
+    # ---- the same certificate object asked again, under other root keys: the verdict is a function
+    # of (certificate, root key), whatever the object was asked before
+    again = []
+    if isinstance(real, dict) and rc is not None:
+        for j in range(ch.draw(3, "ask-again")):
+            rk = ch.pick(["stranger", "genuine", "same", "device-key"], "again.root")
+            r2 = {"stranger": Key(scalar(b"again" + bytes([j]))).pub65, "genuine": dev.issuer.pub65,
+                  "same": bytes.fromhex(root_hex), "device-key": dev.device_key.pub65}[rk]
+            try:
+                real2 = cert.validate_and_get_values(HSMCertificateRoot(r2.hex()))
+            except Exception as e:
+                real2 = "%s: %s" % (type(e).__name__, str(e)[:80])
+            ref2 = REF.validate(rc, r2)
+            again.append(rk)
+            if real2 != ref2:
+                viol.append(("history/same-object-other-root",
+                             "%s; asked again (call %d) under root %s: real %s, reference %s" % (
+                                 desc, j + 2, rk, _short(real2), _short(ref2))))
+                break
     if (real is None) != (ref is None):
         viol.append(("load/disagreement:%s" % kind.split(":")[0], desc))
     elif real is not None and real != ref:
@@ -326,6 +345,11 @@ def _m(owner_path, name, old, new, count=1):
 E = "admin.certificate_v1.HSMCertificateElement"
 C = "admin.certificate_v1.HSMCertificate"
 MUTANTS = {
+    "verdicts-remembered-on-the-object": _m(
+        "admin.certificate_v1.HSMCertificate", "validate_and_get_values",
+        "if not current.is_valid(current_certifier):",
+        "if not (current.name in self.__dict__.setdefault('_v', set()) or "
+        "(current.is_valid(current_certifier) and not self._v.add(current.name))):"),
     "tweak-ignored": _m(E, "is_valid", "if self.tweak is not None:", "if False:"),
     "tweak-hmac-key-swapped": _m(
         E, "is_valid", "bytes.fromhex(self.tweak),\n certifier_pubkey.serialize(compressed=False),",
